@@ -118,8 +118,27 @@ def link_analysis(ctx, F, rule, sfx, prop='C12'):
             if r is not None and r[0] == ('elem', 'self.faces') and r[1] == fp[fld]:
                 some = True if x is not None else ((dd[1] == 1) == dd[2])
                 return (nm, some == pol)
+        # a comparison of the face's two cell indices: a free atom — the required table does not depend on it, so any
+        # dependence of the linking on it is reported row by row (right < left happens whenever the left cell's lower-index
+        # neighbour was not constructed)
+        if leaf.op == 'cmp' and leaf.args[0] in ('<', '<=', '>', '>=', '==', '!='):
+            ra = resolve_item(leaf.args[1], item, sh)
+            rb = resolve_item(leaf.args[2], item, sh)
+            if ra is not None and rb is not None and ra[0] == rb[0] == ('elem', 'self.faces'):
+                sides = {tuple(ra[1]): 'a', tuple(rb[1]): 'b'}
+                L_, R_ = tuple(fp['left']), tuple(fp['right'] + ['Some', '0'])
+                if set(sides) == {L_, R_}:
+                    used_free.append(leaf)
+                    op = leaf.args[0]
+                    left_first = sides[L_] == 'a'
+                    if op in ('==', '!='):
+                        return ('EQ', op == '==')
+                    # normalise to "right > left"
+                    gt = {'<': left_first, '>': not left_first, '<=': left_first, '>=': not left_first}[op]
+                    return ('GT', gt)
         return None
-    T = dtab.Table(['RS', 'SN'], classify)
+    used_free = []
+    T = dtab.Table(['RS', 'SN', 'GT', 'EQ'], classify, constraint=lambda env: not (env['GT'] and env['EQ']))
     counts = {}
     for e in pushes:
         recv = e.args[0]
@@ -142,10 +161,12 @@ def link_analysis(ctx, F, rule, sfx, prop='C12'):
                 counts[kind][row] += 1
     for kind in sorted(set(counts) | {'left', 'right'}):
         for env in T.rows():
+            if not used_free and (env['GT'] or env['EQ']):
+                continue
             row = tuple(env[n] for n in T.names)
             got = counts.get(kind, {}).get(row, 0)
             want = 1 if kind == 'left' else (1 if (env['RS'] and env['SN']) else 0) if kind == 'right' else 0
-            ctx.check(rule, 'link:%s[%s]%s' % (kind, dtab.fmt_env(env), sfx), got == want, '%d push(es)' % got, '%d' % want, w, key_extra='%s:%s:%d' % (kind, dtab.fmt_env(env), got))
+            ctx.check(rule, 'link:%s[%s]%s' % (kind, dtab.fmt_env(env if used_free else {k_: v_ for k_, v_ in env.items() if k_ in ('RS', 'SN')}), sfx), got == want, '%d push(es)' % got, '%d' % want, w, key_extra='%s:%s:%d' % (kind, dtab.fmt_env(env if used_free else {k_: v_ for k_, v_ in env.items() if k_ in ('RS', 'SN')}), got))
     return b, ip, L
 
 
